@@ -554,6 +554,31 @@ def tagged(R, b, v, bs, sk, sp):
             R.bad("C10.TAGKIND", body, "the tag kind error lists %s as accepted" % names, b.span)
         if ks.handling != "collapsed":
             R.bad("C10.TAGKIND", body, "a non-string tag does not end the call", b.span)
+        # every kind of tag value other than a string must arrive at a kind report (an arm of its own for one kind -
+        # `Value::Null => missing tag`, say - takes that kind away from it); independent of how the arms are written
+        def _from_remove(x):
+            return x[0] == "call" and x[1] == tg["remove_bb"]
+        ksites = [s_ for s_ in bs.sites if s_.ek == "IncorrectValueKind" and term_mentions(s_.payload, _from_remove)]
+        for sb in sorted(v.reach):
+            info = v.switch_info(sb)
+            if not info or info["kind"] != "discr" or not str(info.get("adt") or "").endswith("Value") or info["place"] is None:
+                continue
+            if not any(lb == "String" for lb, _ in info["edges"]):
+                continue
+            try:
+                o = canon(v, v.origin({"k": "copy", "place": info["place"]}))
+            except Exception:
+                continue
+            if not term_mentions(o, _from_remove):
+                continue
+            R.add("C10.TAGKIND")
+            for nm in ("Null", "Boolean", "Integer", "NegativeInteger", "Float", "Sequence", "Map"):
+                tgt = v.variant_target(info, nm)
+                if tgt is None:
+                    continue
+                rs = v.reachable(tgt) | {tgt}
+                if ksites and not any(s_.bb in rs for s_ in ksites):
+                    R.bad("C10.TAGKIND", body, "a tag of kind %s does not arrive at the kind report (it takes an arm of its own)" % nm, b.span)
     # dispatch
     R.add("C10.DISPATCH")
     want = [x["key"] for x in sp["variants"]]
